@@ -15,18 +15,24 @@ class Conflict(Exception):
 
 
 def _same_py(a, b):
-    """Would a Python set treat the two values as one element?"""
-    try:
-        return bool(a == b) and hash(a) == hash(b)
-    except TypeError:
-        return False
+    """Would a Python set treat the two attribute values as one element?  Decided by the
+    reference, not by the library's own __eq__/__hash__: numbers by Python numeric equality
+    (1 == True == 1.0), datetimes by instant, everything else by the strict kind-aware key."""
+    import datetime as _dt
+
+    num = (bool, int, float)
+    if isinstance(a, num) and isinstance(b, num):
+        return a == b
+    if isinstance(a, _dt.datetime) and isinstance(b, _dt.datetime):
+        try:
+            return a == b
+        except TypeError:
+            return False
+    return observe.vkey(a) == observe.vkey(b)
 
 
 def _differ(a, b):
-    try:
-        return bool(a != b)
-    except TypeError:
-        return True
+    return not _same_py(a, b)
 
 
 def ref_unify_records(recs):
